@@ -16,7 +16,7 @@ Proof. exact fresh_state. Qed.
 
 Example C13_example :
   let g := Collect CVec (IRep (Memo 1 (Just [97%N])) 0 None) in
-  session (mkQ false false false false false false false false true None) KRich (fun _ a b => (a, b)) 12 g
+  session (mkQ false false false false false false false false true false None) KRich (fun _ a b => (a, b)) 12 g
           [(Emit, [97; 97]%N); (Check, [98]%N); (Emit, [97; 97]%N)]
   = [TRes (Some (Some (VList [VList [VTok 97%N]; VList [VTok 97%N]]))) [];
      TRes None [mkErr (0, 1) (REF [pEoi; pTok 97%N] (Some 98%N)) []];
